@@ -139,3 +139,34 @@ Proof.
   revert b HL HF. induction a as [|x a IH]; destruct b as [|y b]; simpl; intros HL HF; try discriminate; auto.
   rewrite andb_true_iff in HF. destruct HF as [E HF]. apply Nat.eqb_eq in E. f_equal; auto.
 Qed.
+
+(* ---- C16: the seed only orders the unranked tail ---- *)
+Section Seed.
+Variable perm_of : nat -> list nat -> list nat.      (* oracle: Generator(seed).permutation(slice) *)
+Definition fit_ranking (m : nat) (r : list nat) (seed : nat) : list nat :=
+  shuffle_tail m r (perm_of seed (skipn m r)).
+
+Theorem seed_leading m r s1 s2 : m <= length r ->
+  firstn m (fit_ranking m r s1) = firstn m (fit_ranking m r s2).
+Proof. intro H. unfold fit_ranking. now rewrite !shuffle_tail_lead. Qed.
+
+Theorem seed_leading_is_optimizer m r s : m <= length r -> firstn m (fit_ranking m r s) = firstn m r.
+Proof. intro H. unfold fit_ranking. now rewrite shuffle_tail_lead. Qed.
+
+Theorem seed_tail_set m r s1 s2 : m <= length r ->
+  (forall s t, Permutation t (perm_of s t)) ->
+  Permutation (skipn m (fit_ranking m r s1)) (skipn m (fit_ranking m r s2)).
+Proof.
+  intros H HP. unfold fit_ranking. rewrite !shuffle_tail_tail by auto.
+  eapply perm_trans; [apply Permutation_sym, HP|apply HP].
+Qed.
+
+Theorem seed_short m r s : length r <= m -> perm_of s [] = [] -> fit_ranking m r s = r.
+Proof.
+  intros H HP. unfold fit_ranking, shuffle_tail. rewrite skipn_all2 by auto. rewrite HP.
+  rewrite firstn_all2 by auto. apply app_nil_r.
+Qed.
+
+Theorem same_seed_same_ranking m r s1 s2 : s1 = s2 -> fit_ranking m r s1 = fit_ranking m r s2.
+Proof. intros ->. reflexivity. Qed.
+End Seed.
